@@ -1037,7 +1037,11 @@ where
             return Self::send_status(exchange, IMStatusCode::ResourceExhausted).await;
         };
 
-        let primed = self.report_data(&mut rctx, &mut tx, exchange, true).await?;
+        // A priming report is sent even when it is empty, so it is never `Empty`
+        let primed = !matches!(
+            self.report_data(&mut rctx, &mut tx, exchange, true).await?,
+            RespondOutcome::Rejected
+        );
 
         if primed {
             exchange
@@ -1338,11 +1342,15 @@ where
                 let result = self.process_subscription(matter, &mut rctx).await;
 
                 match result {
-                    Ok(true) => rctx.set_keep(),
+                    Ok(RespondOutcome::Accepted) => rctx.set_keep(),
+                    // Nothing of what changed concerns this subscription and no
+                    // liveness report is due, so nothing was sent: the subscription
+                    // stays, but this is not a report the liveness clock restarts from.
+                    Ok(RespondOutcome::Empty) => rctx.set_keep_unsent(),
                     // Not kept: the subscriber tore the subscription down (or we
                     // could not report). Dropping it from the table on `rctx`
                     // drop means its persisted record must be purged too.
-                    Ok(false) => dropped_any = true,
+                    Ok(RespondOutcome::Rejected) => dropped_any = true,
                     Err(e) => {
                         // Reporting failed — typically because the session to the
                         // subscriber died (peer unreachable, MRP retransmissions
@@ -1441,7 +1449,7 @@ where
         &self,
         matter: &Matter<'_>,
         rctx: &mut ReportContext<'_, '_, B, NS>,
-    ) -> Result<bool, Error> {
+    ) -> Result<RespondOutcome, Error> {
         // Route the report by the subscriber's `(fabric, node)`: reuse the best
         // live session to that peer, or (with the `case-responder-only` feature
         // off) establish a fresh one on demand. A subscription is identified by
@@ -1454,20 +1462,20 @@ where
             // Always safe as `IMBuffer` is defined to be `MAX_EXCHANGE_RX_BUF_SIZE`, which is bigger than `MAX_EXCHANGE_TX_BUF_SIZE`
             unwrap!(tx.resize_default(MAX_EXCHANGE_TX_BUF_SIZE));
 
-            let primed = self
+            let outcome = self
                 .report_data(rctx, &mut tx, &mut exchange, false)
                 .await?;
 
             exchange.acknowledge().await?;
 
-            Ok(primed)
+            Ok(outcome)
         } else {
             error!(
                 "No TX buffer available for processing subscription {:?}",
                 rctx.subscription().ids(),
             );
 
-            Ok(false)
+            Ok(RespondOutcome::Rejected)
         }
     }
 
@@ -1530,7 +1538,7 @@ where
         tx: &mut [u8],
         exchange: &mut Exchange<'_>,
         with_dataver: bool,
-    ) -> Result<bool, Error>
+    ) -> Result<RespondOutcome, Error>
     where
         T: DataModel,
     {
@@ -1560,7 +1568,7 @@ where
             &self.state.events,
         );
 
-        let sub_valid = resp
+        let outcome = resp
             .respond(
                 &mut wb,
                 false,
@@ -1570,14 +1578,14 @@ where
             )
             .await?;
 
-        if !sub_valid {
+        if matches!(outcome, RespondOutcome::Rejected) {
             warn!(
                 "Subscription {:?} removed during reporting",
                 rctx.subscription().ids()
             );
         }
 
-        Ok(sub_valid)
+        Ok(outcome)
     }
 
     /// A utility to fetch a pair of TX/RX buffers for processing an Interaction Model request.
@@ -1883,9 +1891,13 @@ where
     }
 }
 
+/// How a `ReportData` interaction ended.
 pub enum RespondOutcome {
+    /// The data was sent and - unless the response was suppressed - the peer answered with `Success`
     Accepted,
+    /// The peer answered with a non-success status (or the response was suppressed)
     Rejected,
+    /// There was nothing to report and no report was due: nothing was sent
     Empty,
 }
 
@@ -1952,7 +1964,7 @@ where
         send_if_empty: bool,
         metadata: M,
         mut filter: F,
-    ) -> Result<bool, Error>
+    ) -> Result<RespondOutcome, Error>
     where
         M: Metadata,
         F: FnMut(EndptId, ClusterId, u32) -> bool,
@@ -1965,20 +1977,26 @@ where
             .report_attributes(wb, &mut empty, &metadata, &mut filter)
             .await?
         {
-            return Ok(false);
+            return Ok(RespondOutcome::Rejected);
         }
 
         if !self.report_events(wb, &mut empty, &metadata).await? {
-            return Ok(false);
+            return Ok(RespondOutcome::Rejected);
         }
 
         if send_if_empty || !empty {
-            self.send(ReportDataChunkState::Done, suppress_last_resp, wb)
-                .await
+            if self
+                .send(ReportDataChunkState::Done, suppress_last_resp, wb)
+                .await?
+            {
+                Ok(RespondOutcome::Accepted)
+            } else {
+                Ok(RespondOutcome::Rejected)
+            }
         } else {
             debug!("No data to report, skipping sending ReportData response");
 
-            Ok(true)
+            Ok(RespondOutcome::Empty)
         }
     }
 
